@@ -598,13 +598,15 @@ class Block:
                                         shift = w.width - j - 1
                                         rel_i = (i//sustain_count) * sustain_count
                                         if rel_i - shift >= 0:
-                                            args.append(results[df.name][rel_i - shift])
+                                            # a factor that does not apply yet has no level: `None`
+                                            args.append(results[df.name][rel_i - shift] or None)
                                         else:
                                             args.append(None)
                                 if w.width > 1:
                                     args = list(chunk_dict(args, w.width))
                                 if w.predicate(*args):
                                     vals.append(l.name)
+                                    break
                             else:
                                 raise RuntimeError("unexpected level in implied factor")
                     else:
